@@ -317,11 +317,16 @@ def countRegList (name : String) (idx : Nat) : List RNode → Nat
   | x :: xs => countReg name idx x + countRegList name idx xs
 end
 
+/-- `object.ReservedName` as far as it depends on the name alone: `self` and `info` are answered by `Environment.Get`
+itself.  (The third kind, names of registered extension functions, depends on the process's registry: the `regrewrite`
+suite is told per candidate by the harness and folds it into `isInt`; the eval suite sees it through the configurations.) -/
+def reservedName (name : String) : Bool := name == "self" || name == "info"
+
 /-- the test made before looking at the body: `useReg := name != "" && !s.NoReg && s.env.HasRegisters() &&
-!object.Constant(name)` in `evalForInteger`; the same conjunction without `name != ""` (the empty name is a
+!object.Constant(name) && !object.ReservedName(name)` in `evalForInteger`; the same conjunction without `name != ""` (the empty name is a
 constant name) in `extendFunctionEnv`, where the integer test and `!ownName` come on top (`isInt` in `useRegister`) -/
 def registerEligible (noReg : Bool) (f : Reg.File) (name : String) : Bool :=
-  name != "" && !noReg && f.hasRegisters && !isConstant name
+  name != "" && !noReg && f.hasRegisters && !isConstant name && !reservedName name
 
 /-- the outcome for one candidate variable -/
 structure Decision where
